@@ -31,11 +31,13 @@ pub struct SimpCase {
     pub known: String,
     /// source "subgroup": generators of the subgroup whose cover is taken (crate generator numbering, letters mapped into range)
     pub words: Vec<Vec<i64>>,
+    /// number of additional evaluations of the unrenumbered input (simplify iterates over hash sets); 0 = one
+    pub repeat: usize,
 }
 
 impl Case for SimpCase {
     fn encode(&self) -> Value {
-        json!({"base": self.base.encode(), "source": self.source, "k": self.k, "pick": self.pick, "swaps": self.swaps.iter().map(|s| json!([s.0, s.1])).collect::<Vec<_>>(), "known_euclidean": self.known, "subgroup_words": self.words})
+        json!({"base": self.base.encode(), "source": self.source, "k": self.k, "pick": self.pick, "swaps": self.swaps.iter().map(|s| json!([s.0, s.1])).collect::<Vec<_>>(), "known_euclidean": self.known, "subgroup_words": self.words, "repeat": self.repeat})
     }
     fn decode(v: &Value) -> Option<Self> {
         Some(SimpCase {
@@ -46,6 +48,7 @@ impl Case for SimpCase {
             swaps: v.get("swaps")?.as_array()?.iter().filter_map(|p| Some((p.get(0)?.as_u64()? as u32, p.get(1)?.as_u64()? as u32))).collect(),
             known: v.get("known_euclidean").and_then(|k| k.as_str()).unwrap_or("").to_string(),
             words: v.get("subgroup_words").and_then(dec_words).unwrap_or_default(),
+            repeat: v.get("repeat").and_then(|r| r.as_u64()).unwrap_or(0) as usize,
         })
     }
     fn weight(&self) -> usize {
@@ -166,7 +169,10 @@ fn check_simp(c: &SimpCase, obs: &mut Obs) -> Result<(), String> {
         .collect();
     // the routine under test, on all numberings; on the inputs the euclidicity test feeds in it must not panic
     let run = |d: &DS| guarded(|| simplify(&d.to_partial_dset()).map(|o| DS::from_dsym(&o)));
-    let results = vec![("input", run(&input)), ("renumbered input", run(&renums[0])), ("input, second evaluation", run(&input)), ("renumbered input (2)", run(&renums[1])), ("renumbered input (3)", run(&renums[2]))];
+    let mut results = vec![("input", run(&input)), ("renumbered input", run(&renums[0])), ("input, second evaluation", run(&input)), ("renumbered input (2)", run(&renums[1])), ("renumbered input (3)", run(&renums[2]))];
+    for _ in 0..c.repeat.min(200) {
+        results.push(("input, repeated evaluation", run(&input)));
+    }
     let mut outs = vec![];
     for (which, r) in results {
         match r {
@@ -263,36 +269,39 @@ pub fn run(ctx: &mut Ctx) {
     let sw = |k: usize| vec![((k as u32).wrapping_mul(0x9e37_79b9), (k as u32 + 3).wrapping_mul(0x85eb_ca6b)), ((k as u32).wrapping_mul(0x27d4_eb2f), (k as u32 + 11).wrapping_mul(0x1656_67b1))];
     for n in 1..=maxn {
         for (k, s) in symbols_of_size(n, &CRYSTALLOGRAPHIC).into_iter().enumerate() {
-            cases.push(SimpCase { base: s, source: "ptc".into(), k: 0, pick: 0, swaps: sw(k), known: String::new(), words: vec![] });
+            cases.push(SimpCase { base: s, source: "ptc".into(), k: 0, pick: 0, swaps: sw(k), known: String::new(), words: vec![], repeat: 0 });
         }
     }
     for (k, c) in corpus_cases(t.pick(4, 6)).into_iter().enumerate() {
-        cases.push(SimpCase { base: c.ds, source: "ptc".into(), k: 0, pick: 0, swaps: sw(k), known: c.known, words: vec![] });
+        // the dual of a euclidean symbol is euclidean; its cover is a different input for simplify
+        cases.push(SimpCase { base: c.ds.dual(), source: "ptc".into(), k: 0, pick: 0, swaps: sw(k + 5), known: format!("dual of: {}", c.known), words: vec![], repeat: 0 });
+        cases.push(SimpCase { base: c.ds, source: "ptc".into(), k: 0, pick: 0, swaps: sw(k), known: c.known, words: vec![], repeat: 0 });
     }
     // pseudo-toroidal covers of 2-sheeted covers of the known-euclidean corpus
     let stride = t.pick(6, 2);
     for (k, c) in corpus_cases(t.pick(4, 6)).into_iter().enumerate() {
         if c.known == "literature corpus" || k % stride == 0 {
-            cases.push(SimpCase { base: c.ds, source: "ptc2".into(), k: 2, pick: (k as u32).wrapping_mul(0x9e37_79b9), swaps: sw(k + 1), known: format!("2-sheeted cover of: {}", c.known), words: vec![] });
+            cases.push(SimpCase { base: c.ds.dual(), source: "ptc2".into(), k: 2, pick: (k as u32).wrapping_mul(0x85eb_ca6b), swaps: sw(k + 2), known: format!("2-sheeted cover of the dual of: {}", c.known), words: vec![], repeat: 0 });
+            cases.push(SimpCase { base: c.ds, source: "ptc2".into(), k: 2, pick: (k as u32).wrapping_mul(0x9e37_79b9), swaps: sw(k + 1), known: format!("2-sheeted cover of: {}", c.known), words: vec![], repeat: 0 });
         }
     }
     // quotients of the cubic tiling by space groups (known euclidean) and cubical manifolds of known topology
     for (k, c) in crate::props::c17::cubic_cases(t.pick(400, 4000), t.pick(3, 4)).into_iter().enumerate() {
-        cases.push(SimpCase { base: c.ds, source: "ptc".into(), k: 0, pick: 0, swaps: sw(k), known: c.known, words: vec![] });
+        cases.push(SimpCase { base: c.ds, source: "ptc".into(), k: 0, pick: 0, swaps: sw(k), known: c.known, words: vec![], repeat: 0 });
     }
     for (k, c) in crate::props::c17::manifold_cases(t.pick(3, 12), true).into_iter().enumerate() {
         if c.kind == "weak" {
-            cases.push(SimpCase { base: c.ds, source: "ptc".into(), k: 0, pick: 0, swaps: sw(k), known: c.known, words: vec![] });
+            cases.push(SimpCase { base: c.ds, source: "ptc".into(), k: 0, pick: 0, swaps: sw(k), known: c.known, words: vec![], repeat: 0 });
         } else {
-            cases.push(SimpCase { base: c.ds, source: "self".into(), k: 0, pick: 0, swaps: sw(k), known: String::new(), words: vec![] });
+            cases.push(SimpCase { base: c.ds, source: "self".into(), k: 0, pick: 0, swaps: sw(k), known: String::new(), words: vec![], repeat: 0 });
         }
     }
     // class (B): branching up to 5
     for n in 1..=t.pick(2, 3) {
         for (k, s) in symbols_of_size(n, &[1, 2, 3, 4, 5]).into_iter().enumerate() {
-            cases.push(SimpCase { base: s.clone(), source: "universal".into(), k: 0, pick: 0, swaps: sw(k), known: String::new(), words: vec![] });
+            cases.push(SimpCase { base: s.clone(), source: "universal".into(), k: 0, pick: 0, swaps: sw(k), known: String::new(), words: vec![], repeat: 0 });
             if k % 3 == 0 {
-                cases.push(SimpCase { base: s, source: "cover".into(), k: t.pick(6, 8), pick: (k as u32).wrapping_mul(0x9e37_79b9), swaps: sw(k), known: String::new(), words: vec![] });
+                cases.push(SimpCase { base: s, source: "cover".into(), k: t.pick(6, 8), pick: (k as u32).wrapping_mul(0x9e37_79b9), swaps: sw(k), known: String::new(), words: vec![], repeat: 0 });
             }
         }
     }
@@ -316,7 +325,7 @@ pub fn run(ctx: &mut Ctx) {
                 };
                 let nw = if next() % 5 == 0 { 2 } else { 1 };
                 let words: Vec<Vec<i64>> = (0..nw).map(|_| { let len = 1 + next() % 10; (0..len).map(|_| { let l = 1 + (next() % 6) as i64; if next() % 2 == 0 { l } else { -l } }).collect() }).collect();
-                cases.push(SimpCase { base: b.clone(), source: "subgroup".into(), k: 0, pick: 0, swaps: sw(tr), known: String::new(), words });
+                cases.push(SimpCase { base: b.clone(), source: "subgroup".into(), k: 0, pick: 0, swaps: sw(tr), known: String::new(), words, repeat: 0 });
             }
         }
     }
@@ -332,6 +341,25 @@ pub fn run(ctx: &mut Ctx) {
     ctx.note(format!("{} of {} candidate (symbol, route) pairs yield an input for simplify", cases.len(), total_candidates));
     let n = cases.len();
     ctx.run_par(&SUB_SIMP, cases.clone(), Some(&format!("{} cases: pseudo-toroidal covers of all 3D symbols with spherical links (<= {} chambers), of the literature corpus, the products and the space-group quotients of the cubic / prism tilings; cubical 3-manifolds of known topology (connected sums by tile surgery) as they are; finite universal covers and branch-free covers of the symbols with branching <= 5 (<= {} chambers); covers belonging to freely acting subgroups given by pseudo-random words (spherical space forms) of the six regular spherical symbols and of the finite-group symbols with <= 2 chambers", n, maxn, t.pick(2, 3))));
+    // many renumberings of the covers of the literature symbols and their duals (a numbering-dependent
+    // mis-cut in network_cut showed for 4 of 200 renumberings of one of these 40 covers only)
+    ctx.layer("literature-renumberings");
+    let lit: Vec<SimpCase> = cases.iter().filter(|c| (c.source == "ptc" || c.source == "ptc2") && c.known.contains("literature corpus")).cloned().collect();
+    if !lit.is_empty() {
+        let lit = Arc::new(lit);
+        ctx.run_prop(
+            &SUB_SIMP,
+            move || {
+                let p = lit.clone();
+                (any::<u32>(), prop::collection::vec((any::<u32>(), any::<u32>()), 4..24)).prop_map(move |(k, swaps)| {
+                    let mut c = p[pick_index(k, p.len())].clone();
+                    c.swaps = swaps;
+                    c
+                })
+            },
+            t.pick(1_500, 25_000),
+        );
+    }
     ctx.layer("random");
     let pool = Arc::new(cases);
     ctx.run_prop(
